@@ -27,7 +27,7 @@
 (***************************************************************************)
 EXTENDS Integers, Sequences, FiniteSets, TLC, Json
 
-CONSTANTS Table,     \* "c06" | "c06big" | "c07" | "c03" | "c08" | "c08chain"
+CONSTANTS Table,     \* "c06" | "c06big" | "c07" | "c03" | "c08" | "c08chain" | "c08nest"
           N,         \* largest tree size / list length of the table
           Sizes,     \* c06big: the tree sizes to take; c08chain: the record counts a block may have; otherwise unused
           Doubles,   \* c07: TRUE = all pairs of mutations, FALSE = single mutations
@@ -633,6 +633,71 @@ C08Block(r, h) ==
                    <<"block-root=MTH", root = MTH(D, 0, r + 1)>>}
     IN [bad |-> Failed(checks), rows |-> {[r |-> r, h |-> h, root |-> root, path |-> lp.path.items]}]
 
+(* ---- c08nest : which leaves a transaction contributes when its contract makes nested calls --------------------- *)
+(* A script is a sequence of steps <<"rec", i>> (PutMerkleVal of datum i) and <<"call", body, mode>> (NativeCall of   *)
+(* a contract that runs `body`): mode "ok" = the callee succeeds, "caught" = the callee fails after its body and the  *)
+(* caller carries on, "uncaught" = the callee fails and the caller returns the error (the transaction fails).         *)
+(* Run / InvokeFrame transcribe NativeService.Invoke: the caller's leaves are set aside, the callee starts with an     *)
+(* empty list; on success the result is callee's leaves FOLLOWED BY the caller's earlier ones (the code's order), on  *)
+(* failure the caller's list is restored.                                                                             *)
+RECURSIVE Run(_, _, _)
+InvokeFrame(body, fails, saved) ==
+    LET r == Run(body, 1, <<>>) IN
+    IF ~r.ok \/ fails THEN [ok |-> FALSE, cur |-> saved] ELSE [ok |-> TRUE, cur |-> r.cur \o saved]
+Run(steps, i, cur) ==
+    IF i > Len(steps) THEN [ok |-> TRUE, cur |-> cur]
+    ELSE IF steps[i][1] = "rec" THEN Run(steps, i + 1, Append(cur, Leaf(Dat(steps[i][2]))))
+    ELSE LET r == InvokeFrame(steps[i][2], steps[i][3] # "ok", cur) IN
+         IF ~r.ok /\ steps[i][3] # "caught" THEN [ok |-> FALSE, cur |-> cur]     \* only a "caught" call is survived
+         ELSE Run(steps, i + 1, r.cur)
+TxLeaves(script) == InvokeFrame(script, FALSE, <<>>).cur          \* HandleInvokeTransaction: a failed transaction gives none
+(* monitor: the data a SUCCESSFUL transaction registered: its own recs and those of successful callees, recursively *)
+RECURSIVE Fails(_, _)
+Fails(steps, i) == i <= Len(steps) /\ ((steps[i][1] = "call" /\ (steps[i][3] = "uncaught" \/ (steps[i][3] = "ok" /\ Fails(steps[i][2], 1))))
+                                       \/ Fails(steps, i + 1))
+RECURSIVE Registered(_, _)
+Registered(steps, i) ==
+    IF i > Len(steps) THEN {}
+    ELSE (IF steps[i][1] = "rec" THEN {steps[i][2]}
+          ELSE IF steps[i][3] = "ok" /\ ~Fails(steps[i][2], 1) THEN Registered(steps[i][2], 1) ELSE {})
+         \cup Registered(steps, i + 1)
+TxRegistered(script) == IF Fails(script, 1) THEN {} ELSE Registered(script, 1)
+
+Recs(from, k) == [i \in 1..k |-> <<"rec", from + i - 1>>]
+SubLen(sub, inner) == sub + (IF inner = "none" THEN 0 ELSE 2)
+SubBody(from, sub, inner) == Recs(from, sub) \o
+    (IF inner = "none" THEN <<>> ELSE <<<<"call", Recs(from + sub, 1), inner>>, <<"rec", from + sub + 1>>>>)
+NestScript(sh) ==
+    LET sl == SubLen(sh.sub, sh.inner)
+        calls == IF sh.mode = "none" THEN <<>>
+                 ELSE <<<<"call", SubBody(sh.pre, sh.sub, sh.inner), sh.mode>>>> \o
+                      (IF sh.twice = 1 THEN <<<<"call", SubBody(sh.pre + sl, sh.sub, sh.inner), "ok">>>> ELSE <<>>)
+        used == sh.pre + (IF sh.mode = "none" THEN 0 ELSE sl * (1 + sh.twice))
+    IN [steps |-> Recs(0, sh.pre) \o calls \o Recs(used, sh.post), next |-> used + sh.post]
+NestShapes == {sh \in [pre : 0..N, sub : 0..N, post : 0..N, mode : {"none", "ok", "caught", "uncaught"},
+                        inner : {"none", "ok", "caught", "uncaught"}, twice : {0, 1}, extra : {0, 1}] :
+                  /\ (sh.mode = "none" => sh.sub = 0 /\ sh.inner = "none" /\ sh.twice = 0)
+                  /\ (sh.mode # "none" => sh.sub + (IF sh.inner = "none" THEN 0 ELSE 1) >= 1 \/ sh.pre >= 1)}
+NestJobs == {[k |-> "nest", n |-> 0, m |-> 0, sh |-> sh] : sh \in NestShapes}
+C08Nest(sh) ==
+    LET sc     == NestScript(sh)
+        (* the block: the scripted transaction, then (extra = 1) a plain transaction with one more record *)
+        leaves == TxLeaves(sc.steps) \o (IF sh.extra = 1 THEN <<Leaf(Dat(sc.next))>> ELSE <<>>)
+        want   == TxRegistered(sc.steps) \cup (IF sh.extra = 1 THEN {sc.next} ELSE {})
+        k      == Len(leaves)
+        hf     == HashFullTreeWithLeafHash(leaves)
+        root   == IF k = 0 THEN Zero ELSE hf.root
+        order  == [i \in 1..k |-> leaves[i][2][2]]
+        paths  == [i \in 1..k |-> MerkleLeafPath(Dat(order[i]), leaves)]
+        checks == {
+          <<"every-registered-record-is-a-leaf-once", \A d \in want : Cardinality({i \in 1..k : order[i] = d}) = 1>>,
+          <<"no-other-leaf", \A i \in 1..k : order[i] \in want>>,
+          <<"served-verifies", \A i \in 1..k : ~paths[i].err /\ MerkleProve(paths[i].path, root) = [ok |-> TRUE, val |-> Dat(order[i])]>>,
+          <<"root=MTH", k = 0 \/ (~hf.panic /\ hf.root = MTH(leaves, 0, k))>> }
+    IN [bad |-> Failed(checks),
+        rows |-> {[steps |-> sc.steps, extra |-> IF sh.extra = 1 THEN sc.next ELSE -1, order |-> order, root |-> root,
+                   paths |-> [i \in 1..k |-> paths[i].path.items]]}]
+
 (* ---- the state machine -------------------------------------------------------------------------------- *)
 (* the chains of table "c08chain": block h (1..N) produces job.blocks[h] records; Sizes is the alphabet of counts.  *)
 (* Every chain of length N is printed once (the state graph is a tree); -simulate gives seeded long chains.       *)
@@ -643,12 +708,14 @@ Jobs == IF Table = "c06" THEN C06Jobs
         ELSE IF Table = "c06big" THEN C06BigJobs
         ELSE IF Table = "c03" THEN C03Jobs
         ELSE IF Table = "c07" THEN C07Jobs
+        ELSE IF Table = "c08nest" THEN NestJobs
         ELSE C08Jobs
 
 Result(j) == IF j.k = "tree" THEN C06Tree(j.n)
              ELSE IF j.k = "proofs" THEN C06Proofs(j.n, j.m)
              ELSE IF j.k = "big" THEN C06Big(j.n)
              ELSE IF j.k = "tx" THEN C03Row(j.n)
+             ELSE IF j.k = "nest" THEN C08Nest(j.sh)
              ELSE IF j.k = "cross" THEN C08Cross(j.n)
              ELSE IF j.k = "block" THEN C08Block(j.n, j.m)
              ELSE C07Decide(j.k, j.n, j.m)
